@@ -24,6 +24,7 @@ model); that they do not disturb the content in the real code is checked by the 
 import Sds.Proofs.RawVec
 import Sds.Proofs.IntVec
 import Sds.Proofs.Codec
+import Sds.Proofs.GenEqVec
 
 namespace Sds.C05
 open Sds Outcome
@@ -226,5 +227,52 @@ example : (IntVec.ofList 3 [5, 9, 2]).WF ∧ (IntVec.ofList 3 [5, 9, 2]).items =
 example : IntVec.Valid [.push 300#64, .push 7#64, .set 0 1#64, .pack, .pop, .resize 4 9#64, .extend [1#64], .clear]
     (8, []) := by
   simp [IntVec.Valid, IntVec.Op.pre, IntVec.Op.spec]
+
+/-! **The vector operations as translated from the source on this run.**  `Generated/FnsVec.lean` is produced by
+`tools/rs2lean.py` from the bodies of `RawVector::{bit, int, word, word_unchecked, set_unused_bits, set_bit, set_int,
+push_bit, push_int, pop_bit, pop_int, resize}` and `IntVector::{get, set, push}` — statement by statement, with the
+overflow, shift and index-panic behaviour of the build mode.  On every vector satisfying the representation invariant
+whose length in bits stays below 2^64 (with 63 bits of headroom where the code rounds up to whole words), and for item
+widths in the documented range, the code as it is NOW computes exactly the model operation that the history theorems
+above (`raw_history_refines`, `int_history_refines`, …) are about.  `WF` gives the size-exact hypothesis. -/
+theorem raw_vector_ops_as_translated_from_source (m : Mode) (v : RawVec) (hwf : v.WF) (hl : v.len + 63 < U64)
+    (i off w n : Nat) (x : Word) (b : Bool) (hw : w ≤ 64) :
+    Generated.gen_RawVector_bit m v i = v.bitM i ∧
+    Generated.gen_RawVector_word m v i = v.wordM i ∧
+    Generated.gen_RawVector_word_unchecked m v i = v.wordU i ∧
+    (off < U64 → off + w ≤ 64 * v.data.size → Generated.gen_RawVector_int m v off w = ok (v.int off w)) ∧
+    Generated.gen_RawVector_set_unused_bits m v b = ok (v.setUnusedBits b) ∧
+    (i / 64 < v.data.size → Generated.gen_RawVector_set_bit m v i b = ok (v.setBit i b)) ∧
+    (off < U64 → off + w ≤ 64 * v.data.size → Generated.gen_RawVector_set_int m v off x w = ok (v.setInt off x w)) ∧
+    Generated.gen_RawVector_push_bit m v b = ok (v.pushBit b) ∧
+    (v.len + w < U64 → Generated.gen_RawVector_push_int m v x w = ok (v.pushInt x w)) ∧
+    Generated.gen_RawVector_pop_bit m v = ok v.popBit ∧
+    Generated.gen_RawVector_pop_int m v w = ok (v.popInt w) ∧
+    (n + 63 < U64 → Generated.gen_RawVector_resize m v n b = ok (v.resize n b)) := by
+  have hs : v.data.size = (v.len + 63) / 64 := hwf.1
+  exact ⟨GenEq.raw_bit_eq m v i, GenEq.raw_word_eq m v i, GenEq.raw_word_unchecked_eq m v i,
+    fun ho hin => GenEq.raw_int_eq m v off w hw ho hin, GenEq.raw_set_unused_bits_eq m v b hs,
+    fun hi => GenEq.raw_set_bit_eq m v i b hi, fun ho hin => GenEq.raw_set_int_eq m v off x w hw ho hin,
+    GenEq.raw_push_bit_eq_sz m v b hs (by omega), fun hl' => GenEq.raw_push_int_eq_sz m v x w hw hs hl hl',
+    GenEq.raw_pop_bit_eq m v hs (by omega), GenEq.raw_pop_int_eq m v w hw hs (by omega),
+    fun hn => GenEq.raw_resize_eq_sz m v n b hs hn⟩
+
+theorem int_vector_ops_as_translated_from_source (m : Mode) (v : IntVec) (hwf : v.WF) (i : Nat) (x : Word)
+    (hb : (v.len + 1) * v.width + 63 < U64) :
+    Generated.gen_IntVector_get m v i = v.get i ∧
+    Generated.gen_IntVector_set m v i x = v.set i x ∧
+    Generated.gen_IntVector_push m v x = ok (v.push x) := by
+  have hb' : v.len * v.width < U64 := by
+    have : v.len * v.width ≤ (v.len + 1) * v.width := Nat.mul_le_mul_right _ (by omega)
+    omega
+  exact ⟨GenEq.int_get_eq m v i hwf hb', GenEq.int_set_eq m v i x hwf hb', GenEq.int_push_eq m v x hwf hb⟩
+
+/-- the hypotheses are satisfiable: a three-item vector of width 13 -/
+example : (IntVec.ofList 13 [5, 8191, 77]).WF ∧
+    ((IntVec.ofList 13 [5, 8191, 77]).len + 1) * (IntVec.ofList 13 [5, 8191, 77]).width + 63 < U64 := by decide
+
+/-- … and on it the translated code returns the stored item (and panics on the index one past the end) -/
+example : Generated.gen_IntVector_get .wrapping (IntVec.ofList 13 [5, 8191, 77]) 1 = ok 8191#64 ∧
+    Generated.gen_IntVector_get .wrapping (IntVec.ofList 13 [5, 8191, 77]) 3 = fault (.panic .assert) := by decide
 
 end Sds.C05
